@@ -116,3 +116,57 @@ M('c11-teardown-panic-on-ok', [(TD, '''        panic!("{}", error_strings.join("
 M('c11-user-code-under-lock', [('src/output/owning.rs', '''        let value = self.into();
         Ok(Owned(Box::new(move || Some(value.clone()))))''', '''        let value = crate::private::MutexIsh::new(self.into());
         Ok(Owned(Box::new(move || Some(value.locked(|v| v.clone())))))''')], {'C11': r'R11\.3'})
+
+# ---- C08 -------------------------------------------------------------------------------------
+M('c08-push-only-first', [(LIB, '''            reasons.push(error);''', '''            if reasons.is_empty() {
+                reasons.push(error);
+            }''')], {'C08': r'R08\.2'})
+M('c08-push-after-conditional', [(LIB, '''        let msg = alloc::format!("{error}");
+
+        self.shared_state.panic_reasons''', '''        let msg = alloc::format!("{error}");
+
+        if let error::MockError::ExplicitPanic { .. } = &error {
+            panic!("{msg}");
+        }
+
+        self.shared_state.panic_reasons''')], {'C08': r'R08\.[12]'})
+M('c08-read-consumes', [('src/state.rs', 'self.panic_reasons.locked(|reasons| reasons.clone())', 'self.panic_reasons.locked(|reasons| core::mem::take(reasons))')], {'C08': r'R08\.3'})
+M('c08-only-first-reason', [(TD, '''            return Err(panic_reasons);''', '''            return Err(crate::alloc::vec![panic_reasons[0].clone()]);''')], {'C08': r'R08\.4'})
+M('c08-direct-panic-in-eval', [('src/eval.rs', '''            DynResponder::Panic(msg) => Err(MockError::ExplicitPanic {
+                fn_call: dyn_ctx.fn_call(),
+                pattern: eval_responder
+                    .fn_mocker
+                    .debug_pattern(eval_responder.pat_index),
+                msg: msg.clone(),
+            }),''', '''            DynResponder::Panic(msg) => panic!("{}: Explicit panic from {}: {msg}", dyn_ctx.fn_call(), eval_responder.fn_mocker.debug_pattern(eval_responder.pat_index)),''')], {'C08': r'R08\.1'})
+M('c08-verify-before-forward', [(TD, '''    {
+        // if already in error state, it must be from another thread. Forward those errors to the original thread.
+        // (if original is even still in the original thread.. But report as close to the test "root" as possible)
+        let panic_reasons = unimock.shared_state.clone_panic_reasons();
+        if !panic_reasons.is_empty() {
+            return Err(panic_reasons);
+        }
+    }
+
+    let mut mock_errors = Vec::new();
+    for (_, fn_mocker) in unimock.shared_state.fn_mockers.iter() {
+        fn_mocker.verify(&mut mock_errors);
+    }
+''', '''    let mut mock_errors = Vec::new();
+    for (_, fn_mocker) in unimock.shared_state.fn_mockers.iter() {
+        fn_mocker.verify(&mut mock_errors);
+    }
+
+    if mock_errors.is_empty() {
+        let panic_reasons = unimock.shared_state.clone_panic_reasons();
+        if !panic_reasons.is_empty() {
+            return Err(panic_reasons);
+        }
+    }
+''')], {'C08': r'R08\.4'})
+M('c08-teardown-panic-first-only', [(TD, '''        let error_strings = errors
+            .iter()
+            .map(''', '''        let error_strings = errors
+            .iter()
+            .take(1)
+            .map(''')], {'C08': r'R08\.4', 'C09': r'R09\.teardown_panic'})
